@@ -528,19 +528,38 @@ func genGlueSeq(r *rand.Rand, id int) Case {
 // genInitSeq: a history of 1..4 process starts: func initDB of package main on a configuration with one to three
 // databases (each with a state of its own on the server; two objects may name the same database), the boolEnv
 // variable ("key"; OMIT_CREATE_TABLES itself is not what boolEnv reads), a failing ctrl.Init, faults.
-func genInitSeq(r *rand.Rand, id int) Case {
+func genInitSeq(r *rand.Rand, id int) Case { return genInitSeqL(r, id, false) }
+
+// genInitSeqL: forceShared = the layout "several databases on ONE ClickHouse cluster" (one database per tenant, or logs and
+// traces kept apart): two or three objects with DIFFERENT database names and the SAME non-empty cluster_name. The free
+// generator draws that layout in about one history of twenty only (round 8: seeded C19-h, RotateAll skipping an object whose
+// cluster_name was "already rotated", went unseen), so half of the histories with several objects are forced into it, and
+// the harness emits a few of them before anything else, whatever the seed.
+func genInitSeqL(r *rand.Rand, id int, forceShared bool) Case {
 	c := Case{ID: id, Class: "glue-init"}
 	f := newFake()
 	dbNames := []string{"vdb_a", "vdb_b", "vdb_c"}
 	n := 1 + r.Intn(3)
+	if forceShared && n < 2 {
+		n = 2
+	}
+	shared := n > 1 && (forceShared || r.Intn(2) == 0)
 	cur := []Dbo{}
+	perm := r.Perm(len(dbNames))
+	cluster := clusters[r.Intn(len(clusters))]
 	for i := 0; i < n; i++ {
-		d := genDbo(r, r.Intn(4) == 0)
+		d := genDbo(r, r.Intn(4) == 0 && !(shared && i == 0))
 		d.DB = dbNames[r.Intn(len(dbNames))]
+		if shared {
+			d.DB, d.Cluster = dbNames[perm[i]], cluster
+		}
 		cur = append(cur, d)
 	}
 	if n > 1 {
 		c.Class += "+multi"
+	}
+	if shared {
+		c.Class += "+one-cluster-several-databases"
 	}
 	genKey := func() []EnvVar {
 		out := []EnvVar{}
@@ -562,9 +581,12 @@ func genInitSeq(r *rand.Rand, id int) Case {
 		if i > 0 && r.Intn(10) < 5 {
 			cur = append([]Dbo{}, cur...)
 			j := r.Intn(len(cur))
-			db := cur[j].DB
+			db, cl := cur[j].DB, cur[j].Cluster
 			cur[j] = mutateDbo(r, cur[j])
 			cur[j].DB = db
+			if shared {
+				cur[j].Cluster = cl
+			}
 		}
 		g := &Glue{Kind: "init", Dbos: cur, Env: genKey(), InitFails: r.Intn(12) == 0}
 		run := Run{Glue: g}
